@@ -3,7 +3,7 @@
     witness. *)
 From Coq Require Import String Ascii List Bool Arith ZArith.
 From Raven Require Import Base.GoStr Base.GoStrZ Model.SeqSet Model.Expunge Spec.SeqSet Spec.SeqSetFindings
-  Proof.SeqSetStr Proof.SeqSetParse Proof.ExpungeReplay Proof.C09Findings Proof.JunkStore Proof.DeletedWord
+  Proof.SeqSetStr Proof.SeqSetParse Proof.ExpungeReplay Proof.C09Findings Proof.JunkStore Proof.DeletedWord Proof.FetchSearchExact
   Model.Session Spec.SessionView Proof.SessionCount.
 Import ListNotations.
 Local Open Scope Z_scope.
@@ -62,8 +62,9 @@ Theorem c09_search_all_is_1_to_exists : forall mbox, search_all mbox = zrange 1 
 Proof. exact search_all_numbers. Qed.
 Print Assumptions c09_search_all_is_1_to_exists.
 
-Theorem c09_fetch_all_rows : forall uids, fetch_inline (S_ "1:*") uids = Some (label_from 1 uids).
-Proof. exact fetch_all_rows. Qed.
+Theorem c09_fetch_all_rows : forall uids, Z.of_nat (length uids) <= max_int64 ->
+  fetch_inline (S_ "1:*") uids = Some (expected_fetch [Range (Num 1) Star] uids).
+Proof. intros uids H. exact (fetch_set_exact [Range (Num 1) Star] uids eq_refl H). Qed.
 Print Assumptions c09_fetch_all_rows.
 
 Theorem c09_uid_rank_is_position : forall pre u post,
@@ -89,13 +90,30 @@ Theorem c09_junk_store_exact : forall (s : seqset) (mbox : list msg),
 Proof. exact junk_store_exact. Qed.
 Print Assumptions c09_junk_store_exact.
 
-(** SEARCH <set> and UID SEARCH UID <set> outside their finding classes *)
+(** (b) FETCH <set> (HandleFetch resolves the set with ParseSequenceSetWithDB):
+    for every well-formed set and every mailbox the untagged responses are
+    exactly (i, uid of message i) for the denoted i, in ascending order, each once *)
+Theorem c09_fetch_set_exact : forall (s : seqset) (uids : list Z),
+  wf s = true -> Z.of_nat (length uids) <= max_int64 ->
+  fetch_inline (print s) uids = Some (expected_fetch s uids).
+Proof. exact fetch_set_exact. Qed.
+Print Assumptions c09_fetch_set_exact.
+
+(** SEARCH <set>: the matcher decides the denotation for every number, with "*"
+    the largest number in use (message sequence numbers and, through
+    matchesUIDSet, UIDs) ... *)
+Theorem c09_search_matcher_exact : forall (s : seqset) (largest i : Z),
+  wf s = true -> matches_sequence_set i (print s) largest = denote s largest i.
+Proof. exact matches_set_exact. Qed.
+Print Assumptions c09_search_matcher_exact.
+
+(** ... hence SEARCH <set> returns exactly the denoted messages *)
 Theorem c09_search_set_exact : forall (s : seqset) (total : Z),
-  wf s = true -> 0 <= total <= max_int64 -> classify_search s total = None ->
-  search_set (print s) total = addressed s total.
+  wf s = true -> search_set (print s) total = addressed s total.
 Proof. exact search_set_exact. Qed.
 Print Assumptions c09_search_set_exact.
 
+(** UID SEARCH UID <set> outside its finding class *)
 Theorem c09_uidsearch_set_exact : forall (s : seqset) (uids : list Z),
   wf s = true -> classify_uidsearch s = None ->
   uidsearch_set (print s) uids = addressed_uids s uids.
@@ -112,12 +130,6 @@ Theorem c09_plain_copy_set_exact : forall (tag w mbox : str) (rest : list str) (
   end.
 Proof. exact plain_copy_set_exact. Qed.
 Print Assumptions c09_plain_copy_set_exact.
-
-(** FETCH n (single number; after the fix it is answered under the number n) *)
-Theorem c09_fetch_single_exact : forall (k : Z) (uids : list Z), 1 <= k < 4294967296 ->
-  fetch_inline (itoa k) uids = Some (expected_fetch [One (Num k)] uids).
-Proof. exact fetch_single_exact. Qed.
-Print Assumptions c09_fetch_single_exact.
 
 (** (d) across commands: the client of the observing session applies every
     untagged EXISTS / EXPUNGE strictly (an EXPUNGE must name a message it has).
@@ -158,50 +170,6 @@ Proof. exists [Ext [m_ 1 []; m_ 2 (S_ "\Deleted")]; Cmd CExpunge], [m_ 1 []]. vm
 Print Assumptions c09_refuted_expunge_unannounced.
 
 (** ---- refutations: every remaining finding class contains a violating input ---- *)
-Definition fetch_refuted (cls : finding) : Prop := exists s uids,
-  wf s = true /\ classify_fetch s (Z.of_nat (length uids)) = Some cls
-  /\ fetch_ok s uids (fetch_inline (print s) uids) = false.
-
-Theorem c09_refuted_fetch_star : fetch_refuted F_fetch_star.
-Proof. exists [One Star], [1;2;3]. vm_compute. repeat split; reflexivity. Qed.
-Print Assumptions c09_refuted_fetch_star.
-Theorem c09_refuted_fetch_comma : fetch_refuted F_fetch_comma.
-Proof. exists [One (Num 1); One (Num 2)], [1;2;3]. vm_compute. repeat split; reflexivity. Qed.
-Print Assumptions c09_refuted_fetch_comma.
-Theorem c09_refuted_fetch_star_first : fetch_refuted F_fetch_star_first.
-Proof. exists [Range Star (Num 2)], [1;2;3]. vm_compute. repeat split; reflexivity. Qed.
-Print Assumptions c09_refuted_fetch_star_first.
-Theorem c09_refuted_fetch_reversed : fetch_refuted F_fetch_reversed.
-Proof. exists [Range (Num 3) (Num 1)], [1;2;3]. vm_compute. repeat split; reflexivity. Qed.
-Print Assumptions c09_refuted_fetch_reversed.
-Theorem c09_refuted_fetch_beyond : fetch_refuted F_fetch_beyond.
-Proof. exists [Range (Num 7) Star], [1;2;3]. vm_compute. repeat split; reflexivity. Qed.
-Print Assumptions c09_refuted_fetch_beyond.
-
-Definition search_refuted (cls : finding) : Prop := exists s n,
-  wf s = true /\ classify_search s n = Some cls /\ search_ok s n (search_set (print s) n) = false.
-
-Theorem c09_refuted_search_star : search_refuted F_search_star.
-Proof. exists [One Star], 3. vm_compute. repeat split; reflexivity. Qed.
-Print Assumptions c09_refuted_search_star.
-Theorem c09_refuted_search_comma : search_refuted F_search_comma.
-Proof. exists [One (Num 1); One (Num 2)], 3. vm_compute. repeat split; reflexivity. Qed.
-Print Assumptions c09_refuted_search_comma.
-Theorem c09_refuted_search_star_first : search_refuted F_search_star_first.
-Proof. exists [Range Star (Num 2)], 3. vm_compute. repeat split; reflexivity. Qed.
-Print Assumptions c09_refuted_search_star_first.
-Theorem c09_refuted_search_reversed : search_refuted F_search_reversed.
-Proof. exists [Range (Num 3) (Num 1)], 3. vm_compute. repeat split; reflexivity. Qed.
-Print Assumptions c09_refuted_search_reversed.
-Theorem c09_refuted_search_beyond : search_refuted F_search_beyond.
-Proof. exists [Range (Num 7) Star], 3. vm_compute. repeat split; reflexivity. Qed.
-Print Assumptions c09_refuted_search_beyond.
-Theorem c09_refuted_search_huge : exists s n i,
-  wf s = true /\ classify_search s n = Some F_search_huge
-  /\ In i (addressed s n) /\ ~ In i (search_set (print s) n).
-Proof. exact search_huge_refuted. Qed.
-Print Assumptions c09_refuted_search_huge.
-
 Theorem c09_refuted_uidsearch_shape : exists s uids,
   wf s = true /\ classify_uidsearch s = Some F_uidsearch_shape
   /\ uidsearch_ok s uids (uidsearch_set (print s) uids) = false.
@@ -218,8 +186,11 @@ Example c09_regression_copy_word_is_no_set : forall total, parse_seqset_db (S_ "
 Proof. exact copy_word_is_no_set. Qed.
 Example c09_copy_example :
   plain_copy [S_ "a"; S_ "COPY"; S_ "3:1,2"; S_ "Sent"] 5 = Some [1; 2; 3; 2]
-  /\ fetch_inline (S_ "3") [4; 6; 9] = Some [(3, 9)].
-Proof. vm_compute. split; reflexivity. Qed.
+  /\ fetch_inline (S_ "3") [4; 6; 9] = Some [(3, 9)]
+  /\ fetch_inline (S_ "*") [4; 6; 9] = Some [(3, 9)] /\ fetch_inline (S_ "3:1,2") [4; 6; 9] = Some [(1, 4); (2, 6); (3, 9)]
+  /\ fetch_inline (S_ "7:*") [4; 6; 9] = Some [(3, 9)] /\ fetch_inline (S_ "1:") [4; 6; 9] = None
+  /\ search_set (S_ "*:2,9") 3 = [2; 3].
+Proof. vm_compute. repeat split; reflexivity. Qed.
 
 Example c09_regression_deletedx_not_selected :
   sql_deleted (S_ "\DeletedX") = false /\ sql_deleted (S_ "\Seen \Deleted") = true
